@@ -141,6 +141,16 @@ def install():
 
 def radial(rng):
     T = rng.randint(1, 5)
+    if rng.random() < 0.12 and T >= 2:
+        # nearly coincident shells far out: neighbouring radii differ by 1e-6..1e-4 of the radius (5e-5..1e-3 A), far above the 1e-8 A the
+        # decomposition resolves
+        a = rng.choice([1.0, 2.5, 10.0])
+        vals = [a]
+        for _ in range(T - 1):
+            vals.append(round(vals[-1] + a * 10 ** rng.uniform(-6, -4), 9))
+        if rng.random() < 0.5:
+            vals.append(round(vals[-1] + 0.5, 3))
+        return "[" + ", ".join(repr(v) for v in vals) + "]", len(vals)
     if rng.random() < 0.25 and T >= 2:
         # radii with many decimals in Angstrom (the decomposition must give them back, not a rounded version of them)
         a = rng.randint(5, 150) / 100
